@@ -20,14 +20,18 @@ ASSUMPTIONS = [
 ]
 SPEC = {'conf_quick': [('K1', 3)],
  'conf_thorough': [('K1', 4), ('K10', 3)],
- 'quick': [('K0', 'std', 3),
+ 'quick': [('K1', 'ar', 7),
+           ('K0', 'std', 3),
            ('K0', 'small', 4),
            ('K1', 'std', 3),
            ('K0', 'liq', 4),
            ('K10', 'lend', 4),
            ('K11', 'small', 4),
            ('lasso', 'K1', 'small', 2, 6)],
- 'thorough': [('K0', 'std', 4),
+ 'thorough': [('K1', 'ar', 8),
+              ('K10', 'ar', 8),
+              ('K13', 'ar', 8),
+              ('K0', 'std', 4),
               ('K1', 'std', 4),
               ('K2', 'std', 4),
               ('K3', 'std', 4),
@@ -70,7 +74,9 @@ UNITS = (1, 3, 7)
 def _attempt(init, kind, side, amt, lim, stp, close, fee, bp, qp):
     import basana as bs
     from basana.backtesting import exchange as ex, fees, liquidity, errors
+    from worlds import exch as _exch
     from worlds.exch import PAIRS, T, call, SIDE
+    _exch.set_step({})
     P = PAIRS[0]
     d = bs.backtesting_dispatcher()
     e = ex.Exchange(d, dict(init), fee_strategy=fees.NoFee() if fee is None else fees.Percentage(D(str(fee[0])), D(str(fee[1]))),
